@@ -79,6 +79,10 @@ type prover struct {
 	capEnv  map[ssa.Value]lin  // cap(param) bindings while inlining
 	cfVisit map[ssa.Value]bool // recursion guard of condFacts
 	depth   int
+	// peelConv: treat integer conversions to unsigned or >=32-bit types as the identity. Sound only
+	// for "the value fits n bits" goals (F1): if the unconverted value is proven within [0, 2^n-1],
+	// the converted value is the same number (and a narrower unsigned conversion fits a fortiori).
+	peelConv bool
 }
 
 type proverDB struct {
@@ -599,6 +603,9 @@ func (p *prover) toLin(v ssa.Value, facts *[]cons) lin {
 		db, du, dok := intBits(x.Type())
 		if sok && dok {
 			inner := p.toLin(x.X, facts)
+			if p.peelConv && (du || db >= 32) {
+				return inner
+			}
 			lo, hi := int64(0), int64(0)
 			if du {
 				if db <= 32 {
